@@ -89,6 +89,9 @@ def run(ctx):
         dtd = os.path.join(work, "ext.dtd")
         with open(dtd, "w") as f:
             f.write('<!ENTITY fromdtd "%s">' % MARK)
+        with open(os.path.join(work, "local.xsd"), "w") as fh:
+            fh.write('<xsd:schema xmlns:xsd="http://www.w3.org/2001/XMLSchema" targetNamespace="urn:inc">'
+                     '<xsd:element name="%s" type="xsd:string"/></xsd:schema>' % MARK)
         cwd = os.getcwd()
         os.chdir(work)          # relative system identifiers would resolve here
         try:
@@ -158,7 +161,45 @@ def run(ctx):
                                 fh.write(wsdl_doc.encode())
                         cl = suds.client.Client("suds://main.wsdl", documentStore=store, cache=cache, cachingpolicy=0)
                         return str(cl) + cl.wsdl.root.plain()
-                    entry_points = [("inject", ep_inject), ("transport", ep_transport), ("reqctx", ep_reqctx),
+                    def ep_transport_fetch(schema=schema, secret=secret):
+                        # every document comes from the configured transport, also for file:// locations that
+                        # happen to exist on disk (with different content)
+                        import io
+                        import suds.transport
+                        local = os.path.join(work, "local.xsd")
+                        served = ('<xsd:schema xmlns:xsd="http://www.w3.org/2001/XMLSchema" targetNamespace="urn:inc">'
+                                  '<xsd:element name="served" type="xsd:string"/></xsd:schema>').encode()
+                        main = wsdlkit.wsdl_doc('<xsd:import namespace="urn:inc" schemaLocation="file://%s"/>' % local
+                                                + schema, "f", "fResponse")
+
+                        class T(suds.transport.Transport):
+                            def open(self, request):
+                                return io.BytesIO(main if request.url.endswith("main.wsdl") else served)
+
+                            def send(self, request):
+                                raise AssertionError("no send")
+                        cl = suds.client.Client("http://fetch.invalid/main.wsdl", transport=T(), cache=None,
+                                                documentStore=None)
+                        return str(cl) + cl.wsdl.root.plain() + str(cl.wsdl.schema)
+
+                    def ep_str_reply(secret=secret):
+                        # a plugin hands the reply on as text: it is still document content, never a location
+                        import suds.plugin
+
+                        class P(suds.plugin.MessagePlugin):
+                            def received(self, context):
+                                context.reply = context.reply.decode("utf-8")
+                        out = []
+                        for body in (secret, "file://" + secret, "http://127.0.0.1:9/" + MARK):
+                            cl = wsdlkit.client(base_wsdl.encode(), plugins=[P()])
+                            try:
+                                out.append(str(cl.service.f("x", __inject={"reply": body.encode()})))
+                            except Exception as e:
+                                out.append(type(e).__name__)
+                        return " ".join(out)
+                    extra = [("transport-fetch", ep_transport_fetch), ("str-reply", ep_str_reply)] if rep == 0 and \
+                        name in ("none", "internal-only") else []
+                    entry_points = extra + [("inject", ep_inject), ("transport", ep_transport), ("reqctx", ep_reqctx),
                                     ("parser", ep_parser), ("wsdl", ep_wsdl), ("import", ep_import), ("cache", ep_cache)]
                     for epname, fn in entry_points:
                         meta = {"doctype": name, "entry": epname, "ref": ref, "rep": rep}
